@@ -9,7 +9,8 @@ FUNCTIONS = [('typing', 'electrical_signal.__init__'), ('typing', 'optical_signa
              ('typing', 'electrical_signal.__getitem__'), ('typing', 'optical_signal.__getitem__'),
              ('typing', 'electrical_signal.__call__'), ('typing', 'electrical_signal.copy'),
              ('typing', 'electrical_signal.len'), ('typing', 'electrical_signal.apply')]
-BOUNDS = {'quick': 'lengths 1..3 (operators) / 1..4 (slices), 1 and 2 polarisations, 4 noise patterns, int/float/complex values',
+BOUNDS = {'quick': 'lengths 1..3 (operators) / 1..4 (slices), 1 and 2 polarisations, 4 noise patterns, int/float/complex values; '
+                   'length rejection: objects of another length, and list/tuple operands two elements longer than an object of length 1 or 2, for + - * in both orders',
           'thorough': 'lengths 1..5, every container kind on both sides, dtype argument in {None,int,float,complex}',
           'symbolic': 'every sample value of signal and noise of both operands, scalar operands, slice bounds (forked over their range)',
           'induction': 'one operator/slice/copy step from arbitrary valid operands; the pair-model oracle is compositional, so expression '
